@@ -283,7 +283,7 @@ impl<Db: Database> InternalStorage<Db> {
             forall|i: int| 0 <= i < retained_derived_node_ids@.len() ==> final(self).has(#[trigger] retained_derived_node_ids@[i]), //@O C03.O-1_retained_roots_survive
             // whatever survives was live before and is unchanged: stamps, value, function,
             // dependencies and parameters — it is served without re-execution
-            forall|id: DerivedNodeId| #[trigger] final(self).has(id) ==> old(self).has(id) && final(self).kept(old(self), id), //@O C01+C03.O-1_survivors_keep_stamps_value_dependencies_params
+            forall|id: DerivedNodeId| #[trigger] final(self).has(id) ==> old(self).has(id) && final(self).kept(old(self), id), //@O C01+C02+C03.O-1_survivors_keep_stamps_value_dependencies_params
             // the survivors are closed under Derived dependencies: everything a retained
             // query depends on is retained too
             forall|id: DerivedNodeId, d: DerivedNodeId| final(self).has(id) && #[trigger] is_dep(old(self).deps(id), d) ==> final(self).has(d), //@O C03.O-1_survivors_closed_under_dependencies
